@@ -625,3 +625,8 @@ def run(ctx):
     ctx.guard(rule_r10)
     ctx.guard(rule_r11)
     ctx.guard(rule_r12)
+    from . import c16
+    ctx.guard(c16.rule_r13)      # an unsolicited control frame must not wedge the connection
+    for rr in ctx.rules:
+        if rr.id == "C16.R13":
+            rr.id = "C11.R13"
